@@ -16,8 +16,8 @@ Definition C12_statement : Prop :=
   forall (f : func) (n m : nat) r1 r2,
     vm_run n f = Some r1 -> go_run m f = Some r2 -> r1 = r2.
 
-(* The full statement is false of the code as it is; three independent
-   witnesses (each replayed on the real VM by the check, see KNOWN_FINDINGS). *)
+(* The full statement is false of the code as it is; independent witnesses
+   (each replayed on the real VM by the check, see KNOWN_FINDINGS). *)
 Definition w_native_defer_panic : func := mkfunc [IDeferNat (NPanic 1)] [].
 Definition w_stale_recovered : func :=
   mkfunc [IDeferFn [IPanic 5] [(0, 4%N)]; IDeferFn [IRecover false] []; IPanic 2] [(2, 9%N)].
@@ -35,10 +35,13 @@ Theorem C12_refuted : ~ C12_statement.
 Proof. exact frames_refine_spec_refuted. Qed.
 Print Assumptions C12_refuted.
 
-Theorem C12_refuted_stale_recovered :
-  vm_run 40 w_stale_recovered = Some (OPanic [(5, false, Some 4); (2, true, Some 9)]%N, [ERecover (Some 2%N)]) /\
+(* repaired (fix 7a741c2): a panic recovered by a deferred call leaves the chain when that
+   call returns, also when the function has other deferred calls; the former
+   witness of recovered-panic-stays-in-chain now agrees with Go *)
+Theorem C12_stale_recovered_repaired :
+  vm_run 40 w_stale_recovered = Some (OPanic [(5, false, Some 4)]%N, [ERecover (Some 2%N)]) /\
   go_run 40 w_stale_recovered = Some (OPanic [(5, false, Some 4)]%N, [ERecover (Some 2%N)]).
-Proof. exact stale_recovered_witness. Qed.
+Proof. exact stale_recovered_repaired. Qed.
 
 Theorem C12_refuted_dropped_panic :
   vm_run 60 w_dropped_panic = Some (OPanic [(3, false, Some 13)]%N, [ERecover (Some 4%N)]) /\
